@@ -1332,6 +1332,7 @@ AG_OPTS = {
     "local-early-nocanon": dict(method="local-early", canonize=False),
     "local-early-basic": dict(method="local-early", mode="basic", tree_gauge_distance=1),
     "local-early-left": dict(method="local-early", canonize=False, absorb="left"),
+    "local-early-right": dict(method="local-early", canonize=False, absorb="right"),
     "local-late-right": dict(method="local-late", canonize=False, absorb="right"),
     "local-late": dict(method="local-late"),
     "local-late-nocanon": dict(method="local-late", canonize=False),
